@@ -356,7 +356,7 @@ func rule144(r *core.Run, ctx *oblig.Ctx) {
 			for _, g := range core.GuardsOf(c.(ssa.Instruction)) {
 				cd := core.CondOf(g.If.Cond)
 				if isLenCall(cd.X) {
-					if k, isK := core.ConstInt(cd.Y); isK && k == 0 && cd.Op == token.EQL && g.Branch != cd.Neg {
+					if k, isK := core.ConstInt(cd.Y); isK && k == 0 && ((cd.Op == token.EQL && g.Branch != cd.Neg) || (cd.Op == token.NEQ && g.Branch == cd.Neg) || (cd.Op == token.LSS && false)) {
 						okDel = true
 					}
 				}
